@@ -117,6 +117,8 @@ let rec stmt_of (x : sexp) : stmt =
   | Ls [At "nop"] -> SNop
   | Ls [At "add"; o; h; e] -> SAdd (n_of o, n_of h, expr_of e)
   | Ls [At "restart"; ok] -> SRestart (bool_of ok)
+  | Ls [At "unsetwild"; o; pre] -> SUnsetWild (n_of o, str_of pre)
+  | Ls [At "synth"; gb; e] -> SSynthetic (n_of gb, expr_of e)
   | Ls [At "error"; ok; gs; gr; c; a] -> SError (bool_of ok, n_of gs, n_of gr, opt_expr c, opt_expr a)
   | Ls (At "switch" :: c :: d :: cases) ->
       SSwitch (expr_of c,
